@@ -468,7 +468,7 @@ package compiler
 // function that decides whether a reference resolves everywhere else): a reference met while exploring
 // an allowed object queues the object it resolves to, under the object's own key.
 //@ spec refKey(pkg, name) = pkg + "." + name
-//@ func (*FilterSchemas).buildAllowList$1
+//@ func (*FilterSchemas).buildAllowList@OnRef
 //@   property C05
 //@   requires def.Kind == ast.KindRef && def.Ref != nil && rootObjects != nil && wf(rootObjects)
 //@   modifies rootObjects.order, rootObjects.records[*], rootObjects.order[*], spare-capacity
@@ -478,7 +478,7 @@ package compiler
 //@   ensures  grows: forall k: string :: old(rootObjects.records.has(k)) ==> rootObjects.records.has(k)
 //
 // A constant reference queues the enum (or constant) object it resolves to under the object's own key.
-//@ func (*FilterSchemas).buildAllowList$2
+//@ func (*FilterSchemas).buildAllowList@OnConstantRef
 //@   property C05
 //@   requires def.Kind == ast.KindConstantRef && def.ConstantReference != nil && rootObjects != nil && wf(rootObjects)
 //@   modifies rootObjects.order, rootObjects.records[*], rootObjects.order[*], spare-capacity
@@ -490,7 +490,7 @@ package compiler
 // One step of the exploration: an object that is not allowed yet is allowed under the key it was queued
 // with BEFORE its type is explored (the exploration runs callbacks with unknown effects), and its type is
 // explored in the schema of its package.
-//@ func (*FilterSchemas).buildAllowList$3
+//@ func (*FilterSchemas).buildAllowList@Iterate
 //@   property C05
 //@   requires allowList != nil && wf(allowList) && visitor != nil
 //@   at-call "compiler.(*Visitor).VisitType" allowed: allowList.records.has(key) && $arg0 == visitor && $arg2 == object.Type && $arg1 == call("ast.Schemas.Locate", schemas, object.SelfRef.ReferredPkg).0
@@ -498,7 +498,7 @@ package compiler
 //
 // The filter itself: exactly the objects whose own key is in the allow list are kept, with their values
 // and their relative order.
-//@ func (*FilterSchemas).processSchema$1
+//@ func (*FilterSchemas).processSchema@Filter
 //@   property C05
 //@   requires allowList != nil
 //@   modifies nothing
